@@ -34,7 +34,9 @@ def handle : List String → Verdict
       let written := Bytes.countInfix (Bytes.ofString "_Buffer.WriteString(templ.EscapeString(string(templ_7745c5c3_Var") code
       let shapeS := String.ofList (shape.map fun c => Char.ofNat c.toNat)
       let expected := if (Bytes.hasInfix (Bytes.ofString "then-else") shape) then 2 else 1
-      let ok := typed == expected && joined == 0 && written == expected
+      -- (in the "shared" shapes the same expression text also fills an ordinary string attribute, once)
+      let joinedWant := if Bytes.hasInfix (Bytes.ofString "shared") shape then 1 else 0
+      let ok := typed == expected && joined == joinedWant && written == expected
       { predfail := if ok then none else
           some s!"href/action expression not routed through templ.SafeURL: typed={typed} (want {expected}) viaJoinStringErrs={joined} escapedWrites={written}",
         nontrivial := true, tags := ["typing:" ++ shapeS], sig := s!"typing;{shapeS}" }
